@@ -354,10 +354,14 @@ def registry_rules(prog, run, rid, aspect):
         cases = 0
         for sel in itertools.product((1, 0), repeat=n):
             tests = list(zip(gp, sel))
-            for flags in (((0, 0), (1, 1), (1, 0), (0, 1)) if aspect == "separate" or n <= 2 else ((0, 0),)):
+            # (accounting: also with every test an ignored test - filtered out is filtered out, whatever the test would have done)
+            variants = [(fl_, ()) for fl_ in (((0, 0), (1, 1), (1, 0), (0, 1)) if aspect == "separate" or n <= 2 else ((0, 0),))]
+            if aspect == "accounting" and 1 <= n <= 3:
+                variants.append(((0, 0), tuple(range(n))))
+            for flags, ign in variants:
                 cases += 1
                 try:
-                    log, env = registry_fold(prog, tests, flags)
+                    log, env = registry_fold(prog, tests, flags, ignored=ign)
                 except Unknown as u:
                     if "unbounded recursion" in str(u) or "steps" in str(u):
                         bad = bad or "tests %s: the walk over the list does not end (%s)" % (tests, u)
